@@ -239,7 +239,7 @@ class ExprMixin:
             return i
         g = z3.And(*self.guards) if self.guards else None
         s = z3.Solver()
-        s.set("timeout", 200)
+        s.set("rlimit", 200000)  # deterministic budget
         for h in st.pc:
             s.add(h)
         if g is not None:
